@@ -52,9 +52,10 @@ def run_case(a):
     viol = []
     st = {"runs": 0, "paths_snapshotted": 0, "foreign_planted": 0, "mutating_syscalls_classified": 0}
     try:
-        layout = rnd.choice(["inside", "beside", "equal", "deep", "dotdot"])
+        layout = rnd.choice(["inside", "beside", "equal", "deep", "dotdot", "default"])
         srcrel = "app/src-tauri"
-        outrel = {"inside": "app/src-tauri/gen", "beside": "app/generated", "equal": "app/src-tauri", "deep": "app/web/src/lib/gen/api", "dotdot": "app/src-tauri/../bindings"}[layout]
+        outrel = {"inside": "app/src-tauri/gen", "beside": "app/generated", "equal": "app/src-tauri", "deep": "app/web/src/lib/gen/api", "dotdot": "app/src-tauri/../bindings",
+                  "default": "app/src/generated"}[layout]     # "default": what the flags' built-in defaults spell, relative to the cwd app/
         outnorm = os.path.normpath(outrel)
         src = os.path.join(root, srcrel)
         common.write_tree(src, compound.render(files))
@@ -85,7 +86,11 @@ def run_case(a):
                     pass
         st["foreign_planted"] = len(planted)
         preexisting = {p for p in planted}
-        path = rnd.choice(["cli", "cli-rel", "build", "init", "cli-config", "init-custom"])
+        path = rnd.choice(["cli", "cli-rel", "build", "init", "cli-config", "init-custom", "cli-flags-over-config", "cli-flags-over-config"])
+        if path == "cli-flags-over-config":
+            # the configuration file names ANOTHER output directory (with foreign files in it); the flags name the real one, so
+            # the configured output directory is the flags' (flag > file) and the file's directory must stay untouched
+            common.write_tree(os.path.join(root, "app/decoy_out"), [("types.ts", "// foreign: not the configured directory"), ("index.ts", "// foreign"), ("notes.md", "x")])
         steps = rnd.randint(2, 3)
         wit = {"layout": layout, "path": path, "files": [[p, t] for p, t in compound.render(files)], "planted": planted, "mode": mode}
 
@@ -101,6 +106,17 @@ def run_case(a):
                 json.dump({"project_path": src, "output_path": os.path.join(root, outrel), "validation_library": mode, "visualize_deps": step == 1},
                           open(os.path.join(root, cfgrel), "w"))
                 argv = [cli, "tauri-typegen", "generate", "-c", os.path.join(root, cfgrel)] + (["--force"] if step == 2 else [])
+            elif path == "cli-flags-over-config":
+                other = "zod" if mode == "none" else "none"
+                decoy_cfg = {"project_path": src, "output_path": os.path.join(root, "app/decoy_out"), "validation_library": other}
+                spelled_out = "./src/generated" if layout == "default" else os.path.relpath(os.path.join(root, outrel), cwd)
+                if idx % 2 == 0:
+                    json.dump(decoy_cfg, open(os.path.join(root, "app/typegen.decoy.json"), "w"))
+                    argv = [cli, "tauri-typegen", "generate", "-c", "typegen.decoy.json", "-p", "./src-tauri", "-o", spelled_out, "-v", mode]
+                else:
+                    json.dump({"productName": "x", "plugins": {"typegen": {"projectPath": "./src-tauri", "outputPath": "./decoy_out", "validationLibrary": other}}},
+                              open(os.path.join(root, "app/tauri.conf.json"), "w"))
+                    argv = [cli, "tauri-typegen", "generate", "-p", "./src-tauri", "-o", spelled_out, "-v", mode]
             elif path == "init":
                 cfgrel = "app/src-tauri/tauri.conf.json"
                 if not os.path.exists(os.path.join(root, cfgrel)):
